@@ -18,11 +18,22 @@
 //! size table: `<size_of>:<type tokens>` entries separated by `,` -- one for
 //!   the type itself and for every type nested in it.
 //!
+//! Every fourth case is followed by an ENGINE experiment on the real `GlobalCache<T>` with a
+//! memory limit M: two values are stored under the keys `a` and `b` and the line
+//!
+//!   E|<id>|<rust type name>|<type tokens>|<value a>|<value b>|<M>|<a stored 0/1>|<b stored 0/1>|<policy>|<size table>
+//!
+//! says what the cache holds afterwards; the driver judges it with the FOOTPRINT of the Coq
+//! specification (not with the library's own estimate): total <= M, an oversize value is not
+//! stored and displaces nothing, nothing is evicted needlessly.
+//!
 //! `<rust footprint>` is an independent second opinion computed here by
 //! walking the value: size_of::<T>() + owned heap (capacities, pointees).
 
-use cachelito_core::{CacheEntry, MemoryEstimator};
-use std::collections::BTreeMap;
+use cachelito_core::{CacheEntry, CacheStats, EvictionPolicy, GlobalCache, MemoryEstimator};
+use once_cell::sync::Lazy;
+use parking_lot::{Mutex, RwLock};
+use std::collections::{BTreeMap, HashMap, VecDeque};
 use std::mem::size_of;
 use std::panic::{catch_unwind, AssertUnwindSafe};
 use std::rc::Rc;
@@ -53,7 +64,7 @@ impl Rng {
 
 type Sizes = BTreeMap<String, usize>;
 
-trait Shape: MemoryEstimator + Sized {
+trait Shape: MemoryEstimator + Sized + Clone + 'static {
     /// type tokens
     fn ty() -> String;
     /// record size_of for Self and every nested type
@@ -439,10 +450,75 @@ fn one<T: Shape>(id: &str, r: &mut Rng) {
     );
 }
 
+/// two stores into the real sync global engine under a memory limit
+fn engine<T: Shape>(id: &str, r: &mut Rng) {
+    let (v1, v2) = (T::make(r, 0), T::make(r, 0));
+    let mut sizes = Sizes::new();
+    T::sizes(&mut sizes);
+    let fp1 = size_of::<T>() as u64 + v1.heap() as u64;
+    let fp2 = size_of::<T>() as u64 + v2.heap() as u64;
+    // limits around the interesting boundaries: one value, the other value, both together
+    let m = match r.below(6) {
+        0 => fp1 + fp2,
+        1 => (fp1 + fp2).saturating_sub(1 + r.below(24)),
+        2 => fp1.max(fp2) + r.below(8),
+        3 => fp2.saturating_sub(1 + r.below(24)).max(1),
+        4 => fp1.min(fp2) + r.below(1 + fp1.max(fp2) - fp1.min(fp2)),
+        _ => 1 + r.below(fp1 + fp2 + 16),
+    }
+    .max(1);
+    let map: &'static Lazy<RwLock<HashMap<String, CacheEntry<T>>>> = {
+        fn mk<T>() -> RwLock<HashMap<String, CacheEntry<T>>> {
+            RwLock::new(HashMap::new())
+        }
+        Box::leak(Box::new(Lazy::new(mk::<T> as fn() -> RwLock<HashMap<String, CacheEntry<T>>>)))
+    };
+    let order: &'static Lazy<Mutex<VecDeque<String>>> = {
+        fn mk() -> Mutex<VecDeque<String>> {
+            Mutex::new(VecDeque::new())
+        }
+        Box::leak(Box::new(Lazy::new(mk as fn() -> Mutex<VecDeque<String>>)))
+    };
+    let stats: &'static Lazy<CacheStats> = Box::leak(Box::new(Lazy::new(CacheStats::new as fn() -> CacheStats)));
+    let (policy, pname) = if r.below(2) == 0 { (EvictionPolicy::FIFO, "fifo") } else { (EvictionPolicy::LRU, "lru") };
+    let c = GlobalCache::new(map, order, None, Some(m as usize), policy, None, None, stats);
+    // the values themselves are stored (a clone would have a different capacity)
+    let (d1, d2) = (v1.val(), v2.val());
+    let (a, b) = (v1, v2);
+    let ok = catch_unwind(AssertUnwindSafe(|| {
+        c.insert_with_memory("a", a);
+        c.insert_with_memory("b", b);
+    }))
+    .is_ok();
+    let (sa, sb) = (map.read().contains_key("a"), map.read().contains_key("b"));
+    let table: Vec<String> = sizes.iter().map(|(t, s)| format!("{}:{}", s, t)).collect();
+    println!(
+        "E|{}|{}|{}|{}|{}|{}|{}|{}|{}|{}",
+        id,
+        std::any::type_name::<T>().replace(' ', ""),
+        T::ty(),
+        d1,
+        d2,
+        m,
+        if ok { (sa as u8).to_string() } else { "PANIC".into() },
+        sb as u8,
+        pname,
+        table.join(",")
+    );
+}
+
+fn both<T: Shape>(id: &str, r: &mut Rng) {
+    one::<T>(id, r);
+    let n: u64 = id.rsplit('-').next().and_then(|s| s.parse().ok()).unwrap_or(1);
+    if n % 4 == 0 {
+        engine::<T>(&format!("{}e", id), r);
+    }
+}
+
 type Runner = fn(&str, &mut Rng);
 
 macro_rules! types {
-    ($($t:ty),* $(,)?) => { &[ $( one::<$t> as Runner ),* ] };
+    ($($t:ty),* $(,)?) => { &[ $( both::<$t> as Runner ),* ] };
 }
 
 static TYPES: &[Runner] = types![
